@@ -370,6 +370,11 @@ pub fn shared_state_scan() -> Vec<String> {
 pub fn replay(case: &Value) -> Result<String, String> {
     match case["kind"].as_str().unwrap() {
         "fronts" => run_fronts(&kvs_from(&case["kvs"]), &[(1, 1), (2, 2), (3, 3)]).map(|n| format!("{} builds byte-identical", n)),
+        "fronts-mixed" => {
+            let (i, total) = (case["index"].as_u64().unwrap() as usize, case["total"].as_u64().unwrap() as usize);
+            let kvs = mixed_family(total).swap_remove(i).1;
+            run_fronts(&kvs, &[(3, 3)]).map(|n| format!("{} builds byte-identical", n))
+        }
         "fronts-corpus" => {
             let kvs = corpus_sample(case["name"].as_str().unwrap(), case["take"].as_u64().unwrap() as usize, case["set"].as_bool().unwrap())?;
             run_fronts(&kvs, &[]).map(|n| format!("{} builds byte-identical", n))
@@ -492,6 +497,18 @@ pub fn plan(tier: Tier) -> Plan {
             do_fronts(&kvs, &[(2, 2)], st, rep);
         }
     }));
+    {
+        let total = if thorough { 630 } else { 84 };
+        for part in 0..16usize {
+            p.units.push(unit("mixed-mid-size-family-all-front-ends-(finite-family)", format!("mixed part {}", part), move |st, rep| {
+                for (i, (_, kvs)) in mixed_family(total).into_iter().enumerate() {
+                    if i % 16 != part { continue; }
+                    st.nontrivial += 1;
+                    do_fronts_case(&kvs, &[(3, 3)], json!({"kind": "fronts-mixed", "index": i, "total": total}), st, rep);
+                }
+            }));
+        }
+    }
     // inputs large enough to put the DEFAULT cache under pressure (evictions
     // decide the bytes there): every front end must still agree
     for (name, take, set) in [("words-10000", 10_000usize, true), ("words-10000", 10_000, false), ("words-10000", 3_000, false), ("words-10000", 400, true), ("wiki-urls-10000", 10_000, true), ("wiki-urls-10000", 1_500, false)] {
